@@ -128,6 +128,7 @@ fn main() {
         "C14" => { vh::c14::check(&rep); rep.finish(vh::c14::RULE, vh::c14::ASSUME, vh::c14::SITUATIONS) }
         "C12" => { vh::c12::check(&rep); rep.finish(vh::c12::RULE, vh::c12::ASSUME, vh::c12::SITUATIONS) }
         "C20" => { vh::c20::check(&rep); rep.finish(vh::c20::RULE, vh::c20::ASSUME, vh::c20::SITUATIONS) }
+        "C19" => { vh::c19::check(&rep); rep.finish(vh::c19::RULE, vh::c19::ASSUME, vh::c19::SITUATIONS) }
         _ => { eprintln!("unknown property {}", id); 2 }
     };
     std::process::exit(code);
